@@ -30,7 +30,7 @@ def run_check(pid, family, tags, rule, corrupt=None, findings=None, crash_owner=
         if pid in ("C07", "C13"):        # the real conversion kernel vs. Ledger.Convert on a grid of arguments, and the exhaustive kernel model
             import convk                 # (C13 owns only the refusal half: zero rate / unavailable average)
             nk, kcov = convk.check(pid, tier, refusal_only=(pid == "C13"))
-            extra["conversion_kernel"] = {k: kcov[k] for k in ("mc_configs", "kernel_calls_compared", "mismatches", "self_test")}
+            extra["conversion_kernel"] = {k: kcov[k] for k in ("mc_configs", "kernel_calls_compared", "kernel_calls_compared_64bit", "of_them_refused_or_overflowing", "mismatches", "self_test")}
         if pid == "C16":                 # the real PEG bank kernel (Payouts, Refund) vs. LedgerBlock.PegYields / Refund on all small request vectors
             import bankk
             nk, bcov = bankk.check(pid)
